@@ -68,7 +68,7 @@ func (c12) Generate(seed uint64, tier string, index int) any {
 			// the repeat must still be a no-op
 			sc.Kill = &KillPoint{PerMille: g.R.Intn(1001)}
 		}
-		return &C12Scenario{Mode: "repeat", Opts: opts, Sync: &sc, Touch: touch, Tr: sc.Tr}
+		return &C12Scenario{Mode: "repeat", Opts: opts, Sync: &sc, Touch: touch, Tr: sc.Tr, Arr: []string{"A1", "A1", "A2", "A3s", "A3p"}[g.R.Intn(5)]}
 	}
 	// every fifth run: the same table with two real ends and the real SERVER (or
 	// the local copy's server half) as the receiver, judged by content
@@ -406,6 +406,13 @@ func c12Repeat(t *testing.T, sc *C12Scenario, job *Job, res *Result) {
 	lay := NewLayout(job.Scratch)
 	run := *sc.Sync
 	run.Arr, run.Opts = "A1", sc.Opts
+	switch sc.Arr {
+	case "A2", "A3p", "A3s":
+		run.Arr = sc.Arr // both ends real in every arrangement; the wire tap tells what was sent
+		if strings.HasPrefix(run.Arr, "A3") {
+			run.ViaServe = false // (drawn for the daemon arrangement)
+		}
+	}
 	o := model.ParseOpts(run.Opts)
 	if !o.Times {
 		res.Invalid = "repeat mode needs -t"
@@ -432,6 +439,19 @@ func c12Repeat(t *testing.T, sc *C12Scenario, job *Job, res *Result) {
 			}
 			setTape(&sc.Tr, s)
 			return nil, nil, false
+		}
+		if run.Arr != "A1" {
+			// the sender's stream tells which files were (requested and) sent
+			ps, err := parseSenderSide(&run, s)
+			if err != nil {
+				res.Violate("unparsable-stream", "sender-stream:"+run.Arr, fmt.Sprintf("[%s] %v (stage %s)", label, err, ps.Stage))
+				return nil, nil, false
+			}
+			pr := &refproto.ParsedReceiver{}
+			for _, rp := range ps.Replies {
+				pr.Requests = append(pr.Requests, &refproto.Request{Idx: rp.Idx})
+			}
+			return pr, ps, true
 		}
 		pr, err := refproto.ParseClientReceiverStream(s.WireCS, true, false, false)
 		if err != nil {
